@@ -1,7 +1,40 @@
 (* Properties/C03.v — every grammatical layout parses, and to exactly the model written.
-   Statements only. *)
-From Verif Require Import Base.Str Base.Outcome Model.Ast Model.Token Model.Parser Model.Listener.
+   Statements only; proofs in Proofs/ListenerSem.v and Proofs/ListenerFile.v.
+   [walk] is the transcription of OpenFgaDslListener (Model/Listener.v); [sem_*] (Spec/Sem.v) is the
+   denotation of a parse tree written without any stack.  Layout never reaches the listener: parse
+   trees carry no WHITESPACE/NEWLINE/comment tokens (Model/Parser.v drops them), so these theorems
+   hold for every layout of the same tree; that the lexer/parser model agrees with the generated
+   ANTLR parser on every rendered layout is the correspondence part of the check. *)
+From Verif Require Import Base.Str Base.Outcome Model.Ast Model.Token Model.Parser Model.Listener
+  Spec.Sem Proofs.ListenerSem Proofs.ListenerFile.
 
-(* a parenthesised single operand denotes the operand itself, whatever operator is pending *)
-Theorem C03_single_operand : forall x op, parse_expression [x] op = Some x.
-Proof. intros x op; reflexivity. Qed.
+(* 1. a non-leading operand (a rewrite or a parenthesised group, nested to any depth) appends exactly its
+      denotation and leaves the pending operator, the restrictions and the rewrite stack as they were *)
+Theorem C03_operand : forall e, wf_operand e = true -> forall s,
+  walk_elem e s = Ok (st (rewrites s ++ [sem_elem e]) (operator s) (typeinfo s) (stack s)).
+Proof. exact walk_operand. Qed.
+
+(* 2. a whole relation definition: the listener's final ParseExpression is the denotation of the tree, the
+      restrictions are those of its direct assignment, the stack is empty again *)
+Theorem C03_relation : forall d, wf_rdef d = true ->
+  exists s, walk_rdef d = Ok s /\
+            parse_expression (rewrites s) (operator s) = Some (sem_rdef d) /\
+            typeinfo s = (match restrictions_elem (rd_first d) with Some r => r | None => [] end) /\
+            stack s = [].
+Proof. exact walk_rdef_sem. Qed.
+
+(* 3. a whole document (model or module file): no error and exactly the model written — same types in
+      order, same rewrite trees, same restrictions in order, same conditions and parameter types *)
+Theorem C03_listener_is_sem : forall f, wf_file f -> distinct_decls f ->
+  exists s, walk f = Ok s /\ ls_errs s = [] /\ model_of s = sem_file f.
+Proof. exact walk_is_sem. Qed.
+
+(* non-vacuity: a nested definition with redundant parentheses, `(a or (b and c)) but not d` *)
+Example C03_example :
+  let t := fun s => {| tk := IDENTIFIER; ttext := s; tline := 1; tcol := 0 |} in
+  let a := ERewrite (t (lit "a")) None in let b := ERewrite (t (lit "b")) None in
+  let c := ERewrite (t (lit "c")) None in let d := ERewrite (t (lit "d")) None in
+  let def := {| rd_first := EGroup false a OOr [EGroup true b OAnd [c]]; rd_op := OButNot; rd_rest := [EGroup true d ONone []] |} in
+  wf_rdef def = true /\
+  sem_rdef def = UDiff (UUnion [UComputed (lit "a"); UInter [UComputed (lit "b"); UComputed (lit "c")]]) (UComputed (lit "d")).
+Proof. split; reflexivity. Qed.
